@@ -40,7 +40,7 @@ const (
 )
 
 var (
-	c08Names  = []string{"a.test", "b.a.test", "fx.test", "xn--c08.test"}
+	c08Names = []string{"a.test", "b.a.test", "fx.test", "xn--c08.test"}
 	// A/AAAA/TXT (weighted), other common types, and types chosen to collide when a
 	// cache key derives the type from a table slip or from fewer than 16 bits:
 	// 64/65 (neighbours), 257/513/65281 (low byte 1 = A), 272 (low byte 16 = TXT),
